@@ -39,7 +39,7 @@ inline void print_byte(std::ostream& out, uint8_t x)
         out << "\\x";
         out.width(2);
         out.fill('0');
-        out << std::hex << unsigned(x);
+        out << std::hex << unsigned(x) << std::dec;
     }
 }
 
